@@ -102,6 +102,20 @@ def load_known():
 # ---------------------------------------------------------------------------
 # executing one case
 
+def _library_marker(exc):
+    """'LIBRARY-EXCEPTION <type> at <file:line>\n' if the innermost Python frame of the exception belongs to the
+    library under test, else ''."""
+    try:
+        frames = traceback.extract_tb(exc.__traceback__)
+        libdir = os.path.join(os.path.realpath(build.status()['lib']), 'yaml') + os.sep
+        if frames and os.path.realpath(frames[-1].filename).startswith(libdir) and \
+                not isinstance(exc, (KeyboardInterrupt, SystemExit, MemoryError)):
+            return 'LIBRARY-EXCEPTION %s at %s:%d\n' % (type(exc).__name__, os.path.basename(frames[-1].filename), frames[-1].lineno)
+    except Exception:
+        pass
+    return ''
+
+
 def safe_execute(mod, case, limit=None):
     """Run mod.execute(case) under the per-case watchdog.  Returns an outcome dict.
     Exceptions escaping execute() are harness errors (library exceptions are
@@ -113,7 +127,26 @@ def safe_execute(mod, case, limit=None):
     except Hang:
         return {'violations': [{'class': 'hang', 'detail': 'case exceeded %ss' % limit}],
                 'evals': 1, 'log': 'hang', 'sig': None}
-    except BaseException:
+    except BaseException as exc:
+        # An exception that the check did not anticipate.  If it was raised by code of the library itself (innermost
+        # Python frame under <lib>/yaml) while the check was using the library in a way that is valid on the unchanged
+        # tree, the library is what misbehaved: reported as a violation with a replay file, not as a harness error.
+        try:
+            frames = traceback.extract_tb(exc.__traceback__)
+            if _library_marker(exc):
+                return {'violations': [{'class': 'unexpected-exception-from-library:' + type(exc).__name__, 'detail': {
+                    'exception': repr(exc)[:300],
+                    'raised_at': ['%s:%d %s' % (os.path.basename(f.filename), f.lineno, f.name) for f in frames[-4:]]}}],
+                    'evals': 1, 'log': 'libexc:' + type(exc).__name__, 'sig': None}
+            import re as _re
+            m = _re.search(r'LIBRARY-EXCEPTION (\w+) at (\S+)', str(exc)) if isinstance(exc, RuntimeError) else None
+            if m:
+                # the same, raised inside a forked child (history / reference execution) and reported by the parent
+                return {'violations': [{'class': 'unexpected-exception-from-library:' + m.group(1), 'detail': {
+                    'raised_at': m.group(2), 'traceback_tail': str(exc)[-1200:]}}],
+                    'evals': 1, 'log': 'libexc:' + m.group(1), 'sig': None}
+        except Exception:
+            pass
         return {'harness_error': traceback.format_exc(), 'violations': [], 'evals': 0,
                 'log': 'error', 'sig': None}
     return out
@@ -389,8 +422,8 @@ def forked(fn, timeout=60):
             signal.alarm(int(timeout) + 5)      # hard stop for a hang in C code
             try:
                 msg = ('ok', fn())
-            except BaseException:
-                msg = ('error', traceback.format_exc())
+            except BaseException as exc:
+                msg = ('error', _library_marker(exc) + traceback.format_exc())
             data = pickle.dumps(msg)
             with os.fdopen(wfd, 'wb') as f:
                 f.write(data)
